@@ -16,6 +16,13 @@ from .values import SV, Untranslatable
 from .verify import TaskResult, discharge
 
 
+def _hint(it: Interp, lem: Lemma, env):
+    if lem.hint is None:
+        return
+    params = [a.arg for a in lem.hint_node.args.args]
+    it.eval_clause(lem.hint_node, dict(lem.hint.__globals__), {p: env[p] for p in params})
+
+
 def _stmt(it: Interp, lem: Lemma, env):
     r = it.eval_clause(lem.node, lem.globs, env)
     return it.bterm(it.truth_term(r))
@@ -65,6 +72,7 @@ def prove_lemma(name, timeout_ms=15000) -> TaskResult:
                 ex.assume(lemma_as_hypothesis(it, LEMMAS[u]))
             env = base_env()
             if ind is None:
+                _hint(it, lem, env)
                 it.obligation(f'lemma {name}', 'lemma', tag, _stmt(it, lem, env))
                 return None
             ity = tys[ind]
@@ -76,6 +84,7 @@ def prove_lemma(name, timeout_ms=15000) -> TaskResult:
                     env2[ind] = SV(z3.SubSeq(x, 1, z3.Length(x) - 1), ity)
                     hyp = hyp_term(it, lem, env2, params, ind, consts, lem)
                     ex.assume(hyp)
+                _hint(it, lem, env)
                 it.obligation(f'lemma {name}/{"cons" if which else "empty"}', 'lemma', tag, _stmt(it, lem, env))
                 return None
             if isinstance(ity, TNode):
@@ -96,6 +105,15 @@ def prove_lemma(name, timeout_ms=15000) -> TaskResult:
                         env2[ind] = SV(seq[j], ity)
                         h = hyp_term(it, lem, env2, params, ind, consts, lem, extra_bound=[j])
                         ex.assume(z3.ForAll([j], z3.Implies(z3.And(j >= 0, j < z3.Length(seq)), h)))
+                        # the same hypothesis in the form `all(statement(c) for c in seq)` that spec
+                        # functions and list lemmas use (hash-consed comprehension function)
+                        xe = z3.Const('comp!elem', ity.z3sort())
+                        env3 = base_env()
+                        env3[ind] = SV(xe, ity)
+                        h3 = hyp_term(it, lem, env3, params, ind, consts, lem)
+                        from .classtable import TBool as _TB
+                        ex.assume(it.fused_fold(False, ('comp', h3, None, xe, ity, _TB(), seq)))
+                _hint(it, lem, env)
                 it.obligation(f'lemma {name}/{ci.name}', 'lemma', tag, _stmt(it, lem, env))
                 return None
             raise Untranslatable(f'induction on {ity!r}')
